@@ -381,6 +381,14 @@ impl Vm {
                 car!(rest)
             }
             Cell::Pair(_, _) => {
+                // The variable of (define (variable . formals) body) is a symbol
+                if !car!(car!(rest)).is_symbol() {
+                    return Err(InvalidArgs(
+                        "define".into(),
+                        "symbol or (variable formals)".into(),
+                        car!(rest).to_string(),
+                    ));
+                }
                 self.compile_lambda(lambda, expr, true)?;
                 car!(car!(rest))
             }
